@@ -160,7 +160,9 @@ func TestRetrieval(t *testing.T) {
 				// later local use: the stored chunk is read back and joined
 				ns := netstore.New(n.store, n.svc, pbench.Log(), self)
 				ns.SetChunkInfo(n.ci)
-				readTree(sctx.SetRootHash(ctx, root), ns, ch.Address(), step)
+				if want.name == "retrieval.delivery" { // a single-owner chunk is not a file reference
+					readTree(sctx.SetRootHash(ctx, root), ns, ch.Address(), step)
+				}
 				_ = n.svc.GetRouteScore(time.Now().Unix())
 				return nil
 			},
@@ -192,8 +194,15 @@ func TestRetrievalJoin(t *testing.T) {
 		svc.Config(ci)
 		return &node{svc, st, str, ci}
 	}
-	trees := hostileTrees(gen)
-	for i := 0; i < run.N(10, 150); i++ {
+	var trees []in
+	for _, tr := range hostileTrees(gen) {
+		// these three crash at the same place as "tree-root-span-2^44-one-ref": thorough only
+		if !run.Thorough() && (tr.class == "tree-child-is-root-cycle-free-self-similar" || tr.class == "tree-root-span-2^31-one-ref" || tr.class == "tree-root-span-2^56-one-ref") {
+			continue
+		}
+		trees = append(trees, tr)
+	}
+	for i := 0; i < run.N(0, 150); i++ {
 		trees = append(trees, in{"tree-random", randomTree(gen)})
 	}
 	// last (a hung call keeps spinning until the process ends): the branching computation
@@ -202,7 +211,9 @@ func TestRetrievalJoin(t *testing.T) {
 	{
 		la, lp := pbench.Leaf(rnd(gen, chunkSize))
 		trees = append(trees, in{"tree-root-refs-unaligned-31", frameChunk(2*chunkSize, rnd(gen, 31))})
-		trees = append(trees, in{"tree-root-span-2^58-one-ref", pbench.Cat(frameChunk(1<<58, la), pbench.FrameBytes(lp))})
+		if run.Thorough() {
+			trees = append(trees, in{"tree-root-span-2^58-one-ref", pbench.Cat(frameChunk(1<<58, la), pbench.FrameBytes(lp))})
+		}
 	}
 	runEndpoint(t, run, endpoint{
 		name:       "retrieval.join",
